@@ -306,7 +306,7 @@ func (p *polling) DoWrite(ctx *types.HttpContext, data types.BufferInterface, op
 		return
 	}
 
-	encoding := utils.Contains(ctx.Headers().Peek("Accept-Encoding"), []string{"gzip", "deflate", "br", "zstd"})
+	encoding := acceptedEncoding(ctx.Headers().Peek("Accept-Encoding"), []string{"gzip", "deflate", "br", "zstd"})
 	if encoding == "" {
 		respond(data, strconv.Itoa(data.Len()))
 		return
@@ -324,6 +324,32 @@ func (p *polling) DoWrite(ctx *types.HttpContext, data types.BufferInterface, op
 
 	headers.Set("Content-Encoding", encoding)
 	respond(buf, strconv.Itoa(buf.Len()))
+}
+
+// acceptedEncoding returns the first of the supported codings that the
+// Accept-Encoding header names as a token with a non-zero quality
+// ("vibrant" does not name "br", "gzip;q=0" refuses gzip).
+func acceptedEncoding(header string, supported []string) string {
+	for _, coding := range supported {
+		for _, element := range strings.Split(header, ",") {
+			token, params, _ := strings.Cut(element, ";")
+			if !strings.EqualFold(strings.TrimSpace(token), coding) {
+				continue
+			}
+			refused := false
+			for _, param := range strings.Split(params, ";") {
+				if name, value, ok := strings.Cut(strings.TrimSpace(param), "="); ok && strings.EqualFold(strings.TrimSpace(name), "q") {
+					if q, err := strconv.ParseFloat(strings.TrimSpace(value), 64); err == nil && q == 0 {
+						refused = true
+					}
+				}
+			}
+			if !refused {
+				return coding
+			}
+		}
+	}
+	return ""
 }
 
 // Compresses data.
